@@ -228,6 +228,16 @@ impl EventListener for RecListener {
 #[derive(Debug)]
 struct RecPipe;
 
+thread_local! {
+    /// ManuallyDrop: dropped explicitly inside the simulated execution (a run that ends abnormally leaks it rather
+    /// than running user destructors from a thread-local destructor).
+    static LAST_PHANTOM_PIECE: RefCell<Option<std::mem::ManuallyDrop<Piece<MKey, MVal, SimProps>>>> = const { RefCell::new(None) };
+}
+
+fn take_phantom_piece() -> Option<Piece<MKey, MVal, SimProps>> {
+    LAST_PHANTOM_PIECE.with(|p| p.borrow_mut().take()).map(std::mem::ManuallyDrop::into_inner)
+}
+
 impl Pipe for RecPipe {
     type Key = MKey;
     type Value = MVal;
@@ -237,6 +247,14 @@ impl Pipe for RecPipe {
     }
     fn send(&self, piece: Piece<MKey, MVal, SimProps>) {
         hist::ev("pipe", 0, piece.key().k, piece.value().ver as u64);
+        // keep the last disk-only piece: the "disk tier" may hand it back (what a hit in the write queue does)
+        if piece.properties().phantom().unwrap_or(false) {
+            LAST_PHANTOM_PIECE.with(|p| {
+                if let Some(old) = p.borrow_mut().replace(std::mem::ManuallyDrop::new(piece)) {
+                    drop(std::mem::ManuallyDrop::into_inner(old));
+                }
+            });
+        }
     }
     fn flush(&self, pieces: Vec<Piece<MKey, MVal, SimProps>>) -> std::pin::Pin<Box<dyn Future<Output = ()> + Send>> {
         for p in pieces.iter() {
@@ -284,7 +302,9 @@ pub fn build_cache(ctx: &Arc<MemCtx>) -> MCache {
         c2.callback("filter", k.k);
         !(fm > 0 && k.k % fm == fm - 1)
     });
-    b = b.with_event_listener(Arc::new(RecListener { ctx: ctx.clone() }));
+    if case.get("no_listener") == 0 {
+        b = b.with_event_listener(Arc::new(RecListener { ctx: ctx.clone() }));
+    }
     let cache: MCache = b.build();
     if case.get("pipe") != 0 { cache.with_pipe(Arc::new(RecPipe)) } else { cache }
 }
@@ -479,6 +499,18 @@ fn exec_op(ctx: &Arc<MemCtx>, client: usize, held: &mut Vec<Held>, op: &Op) -> R
             }
             Res::unit()
         }
+        Op::Ctl { what: 40, .. } => {
+            // the disk tier hands the last disk-only piece back (a lookup served from its write queue): the entry is
+            // re-materialized and dropped again; it has been offered to the disk tier once already
+            // (only while nothing of that key is resident: otherwise this would be one more replacing insert, which
+            // the operation log does not know about)
+            if let Some(piece) = take_phantom_piece().filter(|p| !cache.contains(p.key())) {
+                hist::probe("phantom_piece_rematerialized");
+                hist::ev("rematerialize", 0, piece.key().k, piece.value().ver as u64);
+                drop(cache.insert_piece(piece));
+            }
+            Res::unit()
+        }
         Op::Ctl { what: 1, .. } => {
             // the runtime cancels every task spawned so far (in this scenario: the fetch tasks)
             hist::fault("fetch_task_cancelled");
@@ -639,6 +671,7 @@ pub fn exec(case: &Case) {
     });
 
     // ---- drop the cache (every remaining entry must leave with Clear), then shut the runtime down
+    drop(take_phantom_piece());
     hist::ev("cache_drop", 0, 0, 0);
     *ctx.slot.lock().unwrap() = None;
     drop(cache);
